@@ -255,6 +255,21 @@ pub fn layer_paths(_thorough: bool) -> Report {
             }
         }
     }
+    // re-reading in the SAME process sees the present state: the target behind a symlinked standard directory appears / turns into a file between two reads
+    {
+        r.evaluations += 1; r.nontrivial += 1;
+        let t = tempfile::tempdir().unwrap(); let l = t.path().join("layer"); fs::create_dir_all(l.join("dist")).unwrap(); fs::create_dir_all(l.join("vendor/lib")).unwrap();
+        std::os::unix::fs::symlink("dist/bin", l.join("bin")).unwrap(); std::os::unix::fs::symlink("vendor/lib", l.join("lib")).unwrap();
+        let path_of = |le: &LayerEnv, v: &str| le.apply_to_empty(Scope::Build).get(v).map(|x| x.to_string_lossy().to_string());
+        let first = LayerEnv::read_from_layer_dir(&l).unwrap();
+        let (p1, l1) = (path_of(&first, "PATH"), path_of(&first, "LD_LIBRARY_PATH"));
+        fs::create_dir_all(l.join("dist/bin")).unwrap();                                             // bin -> dist/bin now IS a directory
+        fs::remove_dir(l.join("vendor/lib")).unwrap(); fs::write(l.join("vendor/lib"), b"f").unwrap(); // lib -> vendor/lib now is a FILE
+        let second = LayerEnv::read_from_layer_dir(&l).unwrap();
+        let (p2, l2) = (path_of(&second, "PATH"), path_of(&second, "LD_LIBRARY_PATH"));
+        let want = (None, Some(l.join("lib").display().to_string()), Some(l.join("bin").display().to_string()), None);
+        if (p1.clone(), l1.clone(), p2.clone(), l2.clone()) != want { r.violation("implicit_paths", "every read reflects the directory as it is NOW (no answer remembered from an earlier read in the same process)", "bin -> dist/bin (absent, then created), lib -> vendor/lib (directory, then replaced by a file); read, change, read".into(), format!("{want:?} (PATH, LD_LIBRARY_PATH before; PATH, LD_LIBRARY_PATH after)"), format!("{:?}", (p1, l1, p2, l2))); }
+    }
     // read -> write -> read -> write of a layer that HAS explicit environment files (all scopes, values and names that are not valid UTF-8, an empty value)
     // next to the implicit directories: the env directories stay byte for byte what they were
     {
